@@ -420,6 +420,9 @@ func (ex *Exec) load(p PtrV, st *State) Val {
 		name, lt := elemHeap(p.RootTy, path)
 		h := st.heap(name, ArraySort(ArraySort(sortOf(lt))))
 		base = Select(Select(h, SlArr(p.Slice)), At(p.Slice, p.Idx))
+		if e, ok := ex.fwd[h.S]; ok && len(idxs) == 0 && e.arr == SlArr(p.Slice).S && e.pos == At(p.Slice, p.Idx).S {
+			return Scalar{e.val, t}
+		}
 	}
 	r := selectPath(base, idxs)
 	r = ex.vc.define("ld", r)
@@ -501,8 +504,21 @@ func (ex *Exec) store(p PtrV, v Val, st *State) {
 		nh := ex.vc.fresh(name, srt)
 		ex.vc.assume(Eq(nh, Store(h, arr, Store(row, pos, nv))))
 		st.heaps[name] = nh
+		if len(idxs) == 0 {
+			// remember what this heap version holds at the written cell: a load of the same cell from the same
+			// version yields the stored term itself (keeps a syntactically known dynamic type of interfaces)
+			if ex.fwd == nil {
+				ex.fwd = map[string]fwdEntry{}
+			}
+			ex.fwd[nh.S] = fwdEntry{arr.S, pos.S, sv}
+		}
 		ex.mirrorView(arr, name, st)
 	}
+}
+
+type fwdEntry struct {
+	arr, pos string
+	val      Term
 }
 
 // mirrorView propagates a write through a slice view of an array-typed field back to the field.
@@ -811,10 +827,11 @@ func (ex *Exec) mergeVals(hint string, vs []Val, conds []Term) Val {
 			return v0
 		}
 		if v0.T.Sort == SIface {
-			// interface values of one known dynamic type: merge the payloads, keep the type visible (narrowing)
-			dyn := ""
+			// interface values of one known dynamic type (or nil): merge the payloads, keep the type visible (narrowing)
+			var dyns []Term
 			var payloads []Val
 			okAll := true
+			var sole int64
 			for _, v := range vs {
 				s, isSc := v.(Scalar)
 				if !isSc {
@@ -826,16 +843,26 @@ func (ex *Exec) mergeVals(hint string, vs []Val, conds []Term) Val {
 					okAll = false
 					break
 				}
-				if _, lit := litVal(a[0]); !lit || (dyn != "" && dyn != a[0]) {
+				id, _, ok := soleDyn(a[0])
+				if !ok || (id != 0 && sole != 0 && id != sole) {
 					okAll = false
 					break
 				}
-				dyn = a[0]
+				if id != 0 {
+					sole = id
+				}
+				dyns = append(dyns, Term{a[0], SInt})
 				payloads = append(payloads, Scalar{Term{a[1], SInt}, nil})
 			}
-			if okAll && dyn != "" {
+			if okAll && sole != 0 {
 				p := ex.scalar(ex.mergeVals(hint, payloads, conds))
-				return Scalar{MkIface(Term{dyn, SInt}, p), v0.Ty}
+				d := dyns[len(dyns)-1]
+				for i := len(dyns) - 2; i >= 0; i-- {
+					if dyns[i].S != d.S {
+						d = App(SInt, "ite", conds[i], dyns[i], d)
+					}
+				}
+				return Scalar{MkIface(d, p), v0.Ty}
 			}
 		}
 		if hint == "" {
